@@ -67,6 +67,8 @@ def outcome_edges(body, call_blk, max_steps=40):
         return None
     tracked = {t["dest"][0]: _kind_of_ty(body.local_ty(t["dest"][0]))}
     boolmap = {}  # local -> ('ok'|'err') meaning when true
+    if tracked[t["dest"][0]] == "bool":
+        boolmap[t["dest"][0]] = "ok"  # for bool-returning calls: ok = true edge, err = false edge
     discs = {}  # disc local -> tracked local
     seen = set()
     dq = deque([(t["to"], 0)])
